@@ -20,6 +20,7 @@ OBLIGATIONS = [
     "Pkgcore.C23.reset_after_fixers_counterexample",
     "Pkgcore.C23.ebuild_engine_premerge_hardens",
     "Pkgcore.C23.outcome_independent_of_other_entries",
+    "Pkgcore.C23.outcome_independent_of_names",
     "Pkgcore.C23.spec_checker_sound",
 ]
 TRUSTED = [
@@ -39,6 +40,8 @@ ASSUMPTIONS = [
     "also registers instances with a distinct build uid/gid through the public register() API)",
 ]
 RULE = ("[also: engines assembled the way the ebuild format does it — default plugins with real build ids, format triggers incl. preinst_contents_reset, domain triggers — and "
+        "entry names with %-format / str.format / shell metacharacters, reported through the real interpolating observer outputs (file_handle_output, formatter_output) as "
+        "well as a recording stub, offsets with such characters; "
         "runs in which an unrelated pre_merge trigger of priority 5/20/49/60 raises a suppressed exception; file entries that are further names of one inode "
         "(hardlinks: shared st_dev/st_ino, data, mtime; mostly shared, sometimes differing mode/owner) and file entries without st_dev/st_ino] contents sets of 0-9 entries of the five fs classes with distinct locations; modes drawn from all 4096 permission-bit combinations (biased towards set-id and "
         "world-writable ones) optionally with the S_IF* type bits a livefs scan records; uid/gid from {0, build, other}; run through the pre_merge hook of a real "
@@ -185,9 +188,14 @@ def gen_case(rng, idx):
     rng.shuffle(names)
     ids = [0, BUILD_UID, BUILD_GID, 1000, 7]
     entries = []
+    odd_names = rng.random() < 0.4
     for i in range(n):
         kind = rng.choice([0, 0, 0, 1, 1, 2, 3, 4])
-        e = {"kind": kind, "loc": names[i], "mode": gen_mode(rng, kind), "uid": rng.choice(ids), "gid": rng.choice(ids), "payload": i + 1}
+        loc = names[i]
+        if odd_names and rng.random() < 0.6:
+            # any byte but NUL and '/' may occur in a file name: names with printf / str.format / shell metacharacters (score files, doc files, templates)
+            loc = loc + "/" + rng.choice(META_NAMES)
+        e = {"kind": kind, "loc": loc, "mode": gen_mode(rng, kind), "uid": rng.choice(ids), "gid": rng.choice(ids), "payload": i + 1}
         files = [x for x in entries if x["kind"] == 0]
         if kind == 0 and files and rng.random() < 0.45:
             # a further name of an earlier file (hardlink: same data, st_dev/st_ino, mtime -> same payload).  On disk the names of one inode share
@@ -200,7 +208,12 @@ def gen_case(rng, idx):
     how = rng.choice(["install", "install_noplug", "replace", "direct", "ebuild", "ebuild", "ebuild_replace"])
     good_uid = rng.choice([0, 0, 0, 7])
     good_gid = rng.choice([0, 0, 0, 7])
-    return {"entries": entries, "how": how, "observer": rng.random() < 0.5, "offset": rng.random() < 0.7,
+    observer = rng.random() < 0.6
+    return {"entries": entries, "how": how, "observer": observer, "offset": rng.random() < 0.7,
+            # what the observer writes to: the harness' recording output, or the real outputs of pkgcore.operations.observer a front end attaches
+            # (file_handle_output on a stream, formatter_output on a snakeoil formatter) -- these interpolate and write every message
+            "output": rng.choice(["recorder", "file_handle", "file_handle", "formatter"]) if observer else None,
+            "odd_offset": rng.random() < 0.25,
             "fix_perms": rng.random() < 0.3, "bu": BUILD_UID, "ru": good_uid, "bg": BUILD_GID, "rg": good_gid,
             "extra_first": rng.random() < 0.5, "preinst": rng.random() < 0.6,
             "fault": rng.choice([None, None, None, 5, 20, 49, 60]),
@@ -208,11 +221,28 @@ def gen_case(rng, idx):
             "inodes": rng.choice(["scan", "scan", "scan", "none"])}
 
 
+# file-name components with characters that mean something to %-interpolation, str.format, the shell or a terminal
+META_NAMES = ["100%.sav", "%s", "%d", "%(name)s", "%", "%%", "a%", "50% done", "%04o", "%r.log", "{0}", "{x.location}", "{", "}}", "$HOME", "*", "a\\nb",
+              "%(location)s", "%c", "%-", "caf\u00e9 %", "%5", "%.", "% s", "'%s'", "\"q\""]
+
+
 def E(kind, loc, mode, uid, gid, payload):
     return {"kind": kind, "loc": loc, "mode": mode, "uid": uid, "gid": gid, "payload": payload}
 
 
 CORPUS = [
+    # names with %-format / str.format metacharacters, reported through the real stream outputs of pkgcore.operations.observer (what pmerge attaches)
+    {"entries": [E(0, "/usr/bin/helper", 0o104757, BUILD_UID, BUILD_GID, 1), E(1, "/var/games/tool", 0o42777, BUILD_UID, BUILD_GID, 2),
+                 E(0, "/var/games/tool/100%.sav", 0o102666, BUILD_UID, BUILD_GID, 3), E(0, "/usr/share/tool/%s.tmpl", 0o100666, 0, 0, 4),
+                 E(0, "/usr/share/tool/{0}.tmpl", 0o106777, 0, 0, 5), E(0, "/usr/bin/sane", 0o104755, 0, 0, 6)],
+     "how": "install", "observer": True, "output": "file_handle", "offset": True, "fix_perms": False, "bu": BUILD_UID, "ru": 0, "bg": BUILD_GID, "rg": 0,
+     "extra_first": False, "preinst": False, "fault": None, "inodes": "scan"},
+    {"entries": [E(0, "/opt/%(name)s/bin/x", 0o6777, BUILD_UID, BUILD_GID, 1), E(4, "/run/%d", 0o2773, 0, 0, 2), E(1, "/srv/50% done", 0o1777, 0, BUILD_GID, 3)],
+     "how": "ebuild", "observer": True, "output": "formatter", "offset": True, "odd_offset": True, "fix_perms": True, "bu": BUILD_UID, "ru": 0, "bg": BUILD_GID, "rg": 0,
+     "extra_first": False, "preinst": True, "fault": None, "inodes": "scan"},
+    {"entries": [E(0, "/a/%", 0o4757, 0, 0, 1), E(0, "/a/%%", 0o2757, 0, 0, 2)],
+     "how": "direct", "observer": True, "output": "file_handle", "offset": False, "fix_perms": False, "bu": BUILD_UID, "ru": 0, "bg": BUILD_GID, "rg": 0,
+     "extra_first": False, "inodes": "none"},
     # one program installed under several hardlinked names (gzip/gunzip/zcat style) by the build user: every name is an entry of its own
     {"entries": [E(0, "/usr/bin/zip-tool", 0o100755, BUILD_UID, BUILD_GID, 1), E(0, "/usr/bin/unzip-tool", 0o100755, BUILD_UID, BUILD_GID, 1),
                  E(0, "/usr/bin/zcat-tool", 0o100755, BUILD_UID, BUILD_GID, 1), E(2, "/usr/bin/zt", 0o120777, BUILD_UID, BUILD_GID, 2),
@@ -292,9 +322,24 @@ def run_impl(case, scratch, mods):
         extra.append(triggers.detect_world_writable(fix_perms=True))
     if case["extra_first"]:
         extra.reverse()
-    rec = Recorder() if case["observer"] else None
-    obs = observer_mod.repo_observer(rec) if rec is not None else None
-    offset = os.path.join(scratch, "root") if case["offset"] else None
+    rec = stream = None
+    obs = None
+    if case["observer"]:
+        out = case.get("output") or "recorder"
+        if out == "recorder":
+            rec = Recorder()
+            obs = observer_mod.repo_observer(rec)
+        else:
+            import io
+            if out == "file_handle":
+                stream = io.StringIO()
+                obs = observer_mod.repo_observer(observer_mod.file_handle_output(stream))
+            else:
+                from snakeoil.formatters import PlainTextFormatter
+                stream = io.BytesIO()   # snakeoil's plain formatter encodes what it writes
+                obs = observer_mod.repo_observer(observer_mod.formatter_output(PlainTextFormatter(stream)))
+    # the root may itself have an unusual name (a chroot / prefix directory chosen by the admin)
+    offset = os.path.join(scratch, "ro%ot {0} %s" if case.get("odd_offset") else "root") if case["offset"] else None
     res = {"exc": None, "identity": [], "warnings": 0}
     how = case["how"]
     fault = case.get("fault")
@@ -357,6 +402,17 @@ def run_impl(case, scratch, mods):
         for kind_, msg in rec.lines:
             if "unhandled exception" in msg and "injected fault (C23 harness)" not in msg:
                 res["exc"] = "trigger exception suppressed by the engine: " + msg.strip().splitlines()[-1]
+    if stream is not None:
+        text = stream.getvalue()
+        if isinstance(text, bytes):
+            text = text.decode("utf-8", "replace")
+        res["warnings"] = text.count("\n")
+        # execute_hook's report of a suppressed trigger crash: "... unhandled exception caught and suppressed:\n<traceback>"
+        for chunk in text.split("unhandled exception")[1:]:
+            if "injected fault (C23 harness)" not in chunk:
+                tb = [ln for ln in chunk.strip().splitlines() if ln.strip()]
+                last = next((ln for ln in reversed(tb) if not ln.startswith((" ", "warning:", "info:")) and ":" in ln), tb[-1] if tb else "")
+                res["exc"] = "trigger exception suppressed by the engine: " + last.strip()[:300]
     mt = []
     for t in order:
         n = type(t).__name__
@@ -498,7 +554,14 @@ def run(ctx):
             ctx.count("injected_fault_priority_%d" % c["fault"])
         if c["how"].startswith("ebuild") and c.get("preinst"):
             ctx.count("ebuild_with_preinst_contents_reset")
-        ctx.count("observer_%s" % c["observer"])
+        ctx.count("observer_%s" % (c.get("output") or "recorder" if c["observer"] else "none"))
+        if any("%" in e["loc"] for e in c["entries"]):
+            ctx.count("sets_with_percent_in_a_name")
+            if c["observer"] and (c.get("output") or "recorder") != "recorder" and any(
+                    "%" in e["loc"] and e["kind"] != 2 and e["mode"] & 0o6000 and e["mode"] & 0o002 for e in c["entries"]):
+                ctx.count("sets_with_unsafe_percent_name_and_stream_observer")
+        if c.get("odd_offset") and c["offset"]:
+            ctx.count("offset_with_format_metacharacters")
         ctx.count("file_inodes_%s" % c.get("inodes", "scan"))
         pl = [e["payload"] for e in c["entries"] if e["kind"] == 0]
         if len(pl) != len(set(pl)):
@@ -511,8 +574,15 @@ def run(ctx):
             ctx.count("kind_" + KIND_CLASSES[e["kind"]])
             m = e["mode"]
             ctx.count("mode_%s%s" % ("setid" if m & 0o6000 else "plain", "+ww" if m & 0o002 else ""))
+        if r["exc"] and r["after"] is not None and not r["identity"] and all(a is not None for a in r["after"]):
+            # a trigger crashed and the engine went on: say what that did to the entries (the property's own clauses) before reporting the crash
+            for e, a in zip(c["entries"], r["after"]):
+                why = oracle(c, e, a, False)
+                if why:
+                    r["exc"] = f"{e['loc']}: {why}  [{r['exc']}]"
+                    break
         if r["exc"]:
-            ctx.violation(case, "the pre_merge stage failed: " + r["exc"])
+            ctx.violation(case, ("" if "  [" in r["exc"] else "the pre_merge stage failed: ") + r["exc"])
             continue
         if r["identity"]:
             ctx.violation(case, "; ".join(r["identity"][:3]))
